@@ -1,11 +1,12 @@
 //@ variant: lower DEFS=-DBT_LOWER
-//@ variant: api DEFS=-DBT_API
+//@ variant: zero DEFS=-DBT_ZERO
+//@ variant: huge DEFS=-DBT_HUGE
 //@ tu: libxcm/tp/tls/xcm_tp_btls.c
 //@ defs: $DEFS
 //@ enforce: btls_receive
 //@ replace: try_finish_tls_handshake process_ssl_event
 //@ props: C02 C06 C09
-//@ expect: postcondition>=13 canary=10
+//@ expect: postcondition>=13 canary>=4
 #include "_unit.h"
 void harness(void)
 {
@@ -25,7 +26,7 @@ void harness(void)
     if (rv == -1 && xv_errno == EPROTO && xv_sr_calls == r0 + 1 && xv_ssl_err == SSL_ERROR_SSL) XV_CANARY("protocol error in SSL_read: EPROTO");
     if (rv == -1 && xv_errno == ETIMEDOUT && xv_sr_calls == r0 && xv_hs_calls == h0) XV_CANARY("bad before: stored errno");
     if (rv == -1 && xv_errno == EPROTO && xv_hs_calls == h0 + 1 && xv_hs_ret == 1 && xv_sr_calls == r0) XV_CANARY("policy not met after handshake: EPROTO, no SSL_read");
-#ifdef BT_API
+#ifdef BT_ZERO
     if (capacity == 0 && xv_sr_calls == r0 + 1) XV_CANARY("capacity 0 reaches SSL_read");
 #endif
 }
